@@ -45,7 +45,7 @@ for d in sorted(glob.glob(os.path.join(V, 'seeded', 'C*_[12]'))) + sorted(glob.g
             'caught': bool(viol), 'caught_by_target_property': prop in viol}
     json.dump(meta, open(os.path.join(d, 'meta.json'), 'w'), indent=1)
     rows.append((m, prop, viol, und, why))
-for i in range(1, 11):
+for i in range(1, 12):
     d = os.path.join(V, 'seeded', 'orig_D%d' % i)
     rf = os.path.join(rd, 'orig_D%d.json' % i)
     if not os.path.exists(rf):
